@@ -5,3 +5,6 @@ package linker
 
 // No-op counterpart of the /verif observation hook (see verif_observe.go, build tag "verif").
 func verifObserveTreeShaking(c *linkerContext) {}
+
+// No-op counterpart of the chunk order observation hook.
+func verifObserveChunkOrder(c *linkerContext) {}
